@@ -109,6 +109,10 @@ def run(prop, report, tier, seed, replay=None):
                                      context={'a': rng.randint(0, 9), 'k0': 'x', 'k1': [1, 2], 'other': rng.random(),
                                               'secret': f'SENTINEL-{rng.randrange(10 ** 9)}'},
                                      helper_thread=(len(cfgs) % 2 == 1), rerun=(len(cfgs) % 3 == 2)))
+    if not replay:
+        # an empty Lab context (identity filter), and a filter that selects nothing, still reach run() as {}
+        cfgs.append(dict(backend='serial', max_workers=1, filter=False, n=2, context={}, helper_thread=False, rerun=False))
+        cfgs.append(dict(backend='fork', max_workers=2, filter=False, n=2, context={}, helper_thread=False, rerun=False))
     dist = Counter()
     samples = []
     baseline = {}
